@@ -271,6 +271,22 @@ def step (st : St) : List String → St × String
          | .inl o => (st, "hit deny " ++ showDeny o)
          | .inr _ => (st, "hit pass"))
     | _, _ => (st, "bad-op")
+  | ["fwd", kind, method, path, _node, x, a, tenant] =>
+    -- `hit` with admin's `?forward=<node>` query: routing and the middleware do not look at it;
+    -- an accepted request is then forwarded or handled locally ("pass" either way)
+    match st.srvs.lookup kind, parseReq x a tenant with
+    | some (e, _), some r =>
+      match Gin.dispatch e method (hx path) with
+      | .redirect code => (st, "hit redirect " ++ toString code)
+      | .route rt _ =>
+        (match throughAuth st rt.chain r with
+         | .inl o => (st, "hit deny " ++ showDeny o)
+         | .inr _ => (st, "hit pass"))
+      | .noRoute chain =>
+        (match throughAuth st chain r with
+         | .inl o => (st, "hit deny " ++ showDeny o)
+         | .inr _ => (st, "hit pass"))
+    | _, _ => (st, "bad-op")
   | ["sweep", kind, x, a, tenant] =>
     match st.srvs.lookup kind, parseReq x a tenant with
     | some (e, _), some r =>
